@@ -139,7 +139,9 @@ def gen_config(d: Draw, idx):
     R = d.pick([2.0e5, 1.8e6, 6.371e6, 1.2e7])
     cuts = sorted(set(d.between(5, 95) for _ in range(n - 1)))
     fracs = [c / 100.0 for c in cuts] + [1.0]
-    cfg = {'name': 'Gen%d' % idx, 'type': 'layered', 'radius': R, 'layers': {}}
+    name = d.weighted([('Gen%d', 6), ('Gen%d_variant', 1), ('Gen%d_variant_9', 1), ('Gen%d_variant_10', 1), ('super-Gen%d', 1),
+                       ('mini-Gen%d_variant_2', 1)]) % idx
+    cfg = {'name': name, 'type': 'layered', 'radius': R, 'layers': {}}
     if d.chance(1, 3):
         cfg['slices'] = d.pick([10, 40, 55])
     prev = 0.0
@@ -186,7 +188,8 @@ def gen_plan(seed, tier):
             ops.append({'op': 'build_cfg', 'cfg': cfg})
         elif kind == 'derive':
             parent = d.below(n_worlds)
-            nc_kind = d.weighted([('empty', 4), ('same_name', 2), ('new_name', 2), ('flag', 2), ('slices', 1), ('tides', 1)])
+            nc_kind = d.weighted([('empty', 4), ('same_name', 2), ('new_name', 2), ('flag', 2), ('slices', 1), ('tides', 1),
+                                  ('tides_nested', 1), ('earlier_name', 1)])
             nn_kind = d.weighted([('none', 5), ('parent_name', 2), ('parent_config_name', 1), ('fresh', 2)])
             fresh += 1
             ops.append({'op': 'derive', 'parent': parent, 'new_config': nc_kind, 'new_name': nn_kind, 'tag': fresh,
@@ -319,6 +322,8 @@ class WorldChainEngine(EngineBase):
                 else:
                     new_name = 'Fresh_%d' % op['tag']
                 if op['op'] == 'derive':
+                    if op['new_config'] == 'earlier_name':
+                        op = dict(op, _earlier_name=worlds[op['value'] % len(worlds)][0].name)
                     nc = self._new_config(op, pw)
                     inputs.append((nc, copy.deepcopy(nc), 'new_config handed to build_from_world at step %d' % i))
                     call = lambda: t['build_from_world'](pw, nc, new_name)
@@ -367,7 +372,7 @@ class WorldChainEngine(EngineBase):
                          new_name=op['new_name'], new_config=op.get('new_config', ''))
                 if op['op'] == 'scale':
                     self._scaling(pw, new_world, op['factor'], i, label, viol, bump)
-                if op['op'] == 'derive' and op['new_config'] in ('empty', 'same_name', 'new_name'):
+                if op['op'] == 'derive' and op['new_config'] in ('empty', 'same_name', 'new_name', 'earlier_name', 'tides_nested', 'flag', 'tides'):
                     self._same_geometry(pw, new_world, i, label, viol)
             # ---- non-mutation of everything that existed before ----
             for (w, snap, m) in worlds:
@@ -415,6 +420,11 @@ class WorldChainEngine(EngineBase):
             return [{'force_spin_sync': False}, {'albedo': 0.5}, {'emissivity': 0.8}, {'force_spin_sync': True}][op['value'] % 4]
         if k == 'tides':
             return {'tides_on': bool(op['value'] % 2)}
+        if k == 'tides_nested':
+            return {'tides': {'eccentricity_truncation_lvl': [2, 4, 6, 8][op['value'] % 4]}, 'tides_on': True}
+        if k == 'earlier_name':
+            # ask for the name an EARLIER world of the pool already has (any other world, not necessarily the parent)
+            return {'name': op.get('_earlier_name', pw.name)}
         if k == 'slices':
             if 'layers' in pw.config and pw.config['layers']:
                 top = list(pw.config['layers'].keys())[-1]
